@@ -332,11 +332,10 @@ def hyFaceTpl : List Node :=
 theorem hyFace_faceText :
     faceText hyFaceTpl = [.text 1 [97], .obj 1 (.var [118]), .text 1 [98], .ifB 2 [(.always, [.text 2 [99, 32]])]] := by
   have h1 : trimRightSpace [97, 32] = [97] := by decide
-  have h2 : trimLeftSpace [32, 98, 32] = [98, 32] := by decide
   have h3 : trimRightSpace [32, 98, 32] = [32, 98] := by decide
   have h4 : trimLeftSpace [32, 98] = [98] := by decide
   have h5 : trimLeftSpace [32, 99, 32] = [99, 32] := by decide
-  simp [faceText, hyFaceTpl, faceL, faceLNode, faceLBranches, faceR, faceRNode, faceRBranches, h1, h2, h3, h4, h5]
+  simp [faceText, hyFaceTpl, faceL, faceLNode, faceLBranches, faceR, faceRNode, faceRBranches, h1, h3, h4, h5]
 
 theorem hyFace_out : (renderRoot hyCtx hyFaceTpl hyDemoEnv).runPure = ([97, 120, 98, 99, 32], .ok .done) := by
   have h1 : trimRightSpace [97, 32] = [97] := by decide
@@ -444,3 +443,23 @@ theorem hyphen_left_partial_output_differs :
       (renderRoot hyCtx [.text 1 (trimRightSpace [97, 32]), .cycle 2 [] [98] []] []).runPure.2 := by
   have h0 : trimRightSpace [97, 32] = [97] := by decide
   refine ⟨?_, ?_, ?_⟩ <;> hy_eval_loop [h0]
+
+/-! ## The engine's own context -/
+
+/-- `hyphen_erasure` and `hyphen_same_outcome` for the engine's context (`mkCtx`: any primitives and
+    output layer, any configuration, file system and include fuel): `IncQuiet` is discharged -/
+theorem hyphen_erasure_engine (P : Prims) (O : OutPrims) (cfg : Cfg) (fs : FS) (fuel : Nat) (nodes : List Node)
+    (hcap : capTrimFree nodes = true) (env : Env) (out out0 : Bytes)
+    (h : (renderRoot (mkCtx P O cfg fs fuel) nodes env).runPure = (out, .ok .done))
+    (h0 : (renderRoot (mkCtx P O cfg fs fuel) (stripTrims nodes) env).runPure = (out0, .ok .done))
+    (hv : ∀ b ∈ (renderRoot (mkCtx P O cfg fs fuel) (stripTrims nodes) env).calls, ValidUtf8 b) :
+    stripSpaceBytes out = stripSpaceBytes out0 ∧
+    WsDeletion isSpaceRune (decodeRunes out0) (decodeRunes out) ∧
+    out.Sublist out0 ∧ ValidUtf8 out :=
+  hyphen_erasure _ (incQuiet_mkCtx P O cfg fs fuel) nodes hcap env out out0 h h0 hv
+
+theorem hyphen_same_outcome_engine (P : Prims) (O : OutPrims) (cfg : Cfg) (fs : FS) (fuel : Nat) (nodes : List Node)
+    (hcap : capTrimFree nodes = true) (env : Env) :
+    (renderRoot (mkCtx P O cfg fs fuel) nodes env).runPure.2 =
+      (renderRoot (mkCtx P O cfg fs fuel) (stripTrims nodes) env).runPure.2 :=
+  hyphen_same_outcome _ (incQuiet_mkCtx P O cfg fs fuel) nodes hcap env
